@@ -113,6 +113,31 @@ class Ctx:
         return bool(cond)
 
 
+class PrefixCtx:
+    """view of a Ctx under which the obligations of an inherited rule set are recorded with another id prefix"""
+
+    def __init__(self, ctx: Ctx, old: str, new: str):
+        self._ctx, self._old, self._new = ctx, old, new
+
+    def _r(self, oid):
+        return self._new + oid[len(self._old):] if isinstance(oid, str) and oid.startswith(self._old) else oid
+
+    def ok(self, rule, oid, *a, **k):
+        return self._ctx.ok(rule, self._r(oid), *a, **k)
+
+    def violate(self, rule, oid, *a, **k):
+        return self._ctx.violate(rule, self._r(oid), *a, **k)
+
+    def inconclusive(self, rule, oid, *a, **k):
+        return self._ctx.inconclusive(rule, self._r(oid), *a, **k)
+
+    def check(self, cond, rule, oid, *a, **k):
+        return self._ctx.check(cond, rule, self._r(oid), *a, **k)
+
+    def __getattr__(self, name):
+        return getattr(self._ctx, name)
+
+
 def anchored_modules(pid: str, repo):
     """python modules of /repo named in the property's anchors (properties.jsonl)"""
     out = []
